@@ -44,6 +44,8 @@ template <class S, class RCU, unsigned EXTRA = 0, unsigned LESS = 0, bool EXT_LO
 // G3: iterable family: update replaces the element (functor sees the old one), upsert, thread-safe iterators
 template <class S, unsigned EXTRA = 0, unsigned LESS = 0> struct IterSetAd : public GcSetAd<S, EXTRA, LESS> {
   typedef GcSetAd<S, EXTRA, LESS> base; using base::s; IterSetAd(S& s_) : base(s_) {}
+  // documented: emptiness of the iterable family is decided by the item counter, so empty() is meaningful only with a real counter
+  unsigned caps() const { return base::caps() | (base::size_cap() ? 0u : (unsigned)C_NOEMPTY); }
   int upd(int k, int id, bool allow, int& seen) { auto r = s.update(Item(k, id), [&](Item&, Item* old) { if (old) seen = old->id; }, allow); return r.first ? (r.second ? 3 : 2) : 0; }
 };
 // G7: insert-only nogc variants
